@@ -105,7 +105,9 @@ func (x *Exec) oblige(st *State, kind, site, label string, tags []string, goal s
 	copy(o.Log, st.log)
 	o.Trace = append([]string{}, st.trace...)
 	x.obls = append(x.obls, o)
-	st.assume(goal)
+	if goal != "false" {
+		st.assume(goal) // (a goal that is literally false is a structural failure: the path goes on so later obligations stay meaningful)
+	}
 }
 
 func (x *Exec) oblName(kind, site, label string) string {
@@ -362,6 +364,24 @@ func (x *Exec) runInstrs(st *State, fr *Frame, b *ssa.BasicBlock, prev *ssa.Basi
 			for j := 2; j < t.Len(); j++ {
 				res.Fs = append(res.Fs, st.freshVal("recv", t.At(j).Type()))
 			}
+			rk := 2
+			for i, ss := range in.States {
+				chosen := fmt.Sprintf("(= %s %d)", idx, i)
+				if ss.Dir == types.SendOnly {
+					if x.chanDecl("chanlog", ss.Chan) {
+						x.noteSend(st, x.val(st, fr, ss.Chan), x.val(st, fr, ss.Send), chosen)
+					}
+					continue
+				}
+				if x.closeOnlyChan(ss.Chan) {
+					// nothing is ever sent on this channel: the receive can only complete because it was closed
+					x.assumeChanClosed(st, x.val(st, fr, ss.Chan), chosen)
+				}
+				if rk < len(res.Fs) && x.chanDecl("chanlog", ss.Chan) {
+					x.noteRecv(st, x.val(st, fr, ss.Chan), res.Fs[rk], sAnd(chosen, res.Fs[1].S))
+				}
+				rk++
+			}
 			fr.vals[in] = res
 		default:
 			if v, ok := ins.(ssa.Value); ok {
@@ -464,6 +484,9 @@ func (x *Exec) execEffect(st *State, fr *Frame, ins ssa.Instruction) {
 	case *ssa.Send:
 		x.abstracted["chan send"] = true
 		x.sendCheck(st, x.val(st, fr, in.Chan), in.Pos())
+		if x.chanDecl("chanlog", in.Chan) {
+			x.noteSend(st, x.val(st, fr, in.Chan), x.val(st, fr, in.X), "true")
+		}
 	case *ssa.DebugRef:
 	default:
 		x.reject("unmodelled instruction %T", ins)
@@ -711,6 +734,22 @@ func (x *Exec) evalUnOp(st *State, fr *Frame, in *ssa.UnOp) Val {
 		return x.wrapInt(st, "(- "+v.S+")", in.Type())
 	case token.ARROW:
 		x.abstracted["chan receive"] = true
+		if x.closeOnlyChan(in.X) {
+			x.assumeChanClosed(st, v, "true")
+		}
+		if _, ok := x.w.classes["ghost:$chrecvs"]; ok && x.chanDecl("chanlog", in.X) {
+			if in.CommaOk {
+				tt := in.Type().(*types.Tuple)
+				r := Val{T: tt, Fs: []Val{st.freshVal("recv", tt.At(0).Type()), {T: tt.At(1).Type(), S: st.fresh("ok", "Bool"), Sort: "Bool"}}}
+				x.noteRecv(st, v, r.Fs[0], r.Fs[1].S)
+				return r
+			}
+			if s, ok := in.Type().Underlying().(*types.Struct); !ok || s.NumFields() != 0 {
+				r := st.freshVal("recv", in.Type())
+				x.noteRecv(st, v, r, st.fresh("ok", "Bool")) // a plain receive may also see a closed channel (zero value)
+				return r
+			}
+		}
 		if in.CommaOk {
 			tt := in.Type().(*types.Tuple)
 			return Val{T: tt, Fs: []Val{st.freshVal("recv", tt.At(0).Type()), {T: tt.At(1).Type(), S: st.fresh("ok", "Bool"), Sort: "Bool"}}}
@@ -1128,4 +1167,86 @@ func (x *Exec) sendCheck(st *State, ch Val, pos token.Pos) {
 		}
 	}
 	x.oblige(st, "safety:sendclosed", x.site("send", pos), "", append([]string{"C12"}, x.safetyTags...), sNot("(select "+st.hget("ghost:$chclosed")+" "+ch.S+")"), pos, "send on closed channel")
+}
+
+// ---- channels: ghost send log and close-only channels ----
+
+// noteSend records a (possibly conditional) send in the ghost fields Chan.$chsends (number of values sent) and
+// Chan.$chlast (reference of the value sent last), if the contracts declare them.
+func (x *Exec) noteSend(st *State, ch, v Val, cond string) {
+	if ch.S == "" {
+		return
+	}
+	if _, ok := x.w.classes["ghost:$chsends"]; ok {
+		h := st.hget("ghost:$chsends")
+		st.hset("ghost:$chsends", sIte(cond, "(store "+h+" "+ch.S+" (+ (select "+h+" "+ch.S+") 1))", h))
+		if x.writesClasses != nil {
+			x.writesClasses["ghost:$chsends"] = true
+		}
+	}
+	if _, ok := x.w.classes["ghost:$chlast"]; ok {
+		if r, ok := refTerm(v); ok {
+			h := st.hget("ghost:$chlast")
+			st.hset("ghost:$chlast", sIte(cond, "(store "+h+" "+ch.S+" "+r+")", h))
+			if x.writesClasses != nil {
+				x.writesClasses["ghost:$chlast"] = true
+			}
+		}
+	}
+}
+
+// closeOnlyChan: the channel operand is loaded from a field declared `closeonly` (no send on it anywhere in the module).
+func (x *Exec) closeOnlyChan(v ssa.Value) bool { return x.chanDecl("closeonly", v) }
+
+// chanDecl: the channel operand is loaded from a field listed in a declaration of the given kind.
+func (x *Exec) chanDecl(kind string, v ssa.Value) bool {
+	u, ok := v.(*ssa.UnOp)
+	if !ok || u.Op != token.MUL {
+		return false
+	}
+	fa, ok := u.X.(*ssa.FieldAddr)
+	if !ok {
+		return false
+	}
+	fc := fieldClass(fa.X.Type().Underlying().(*types.Pointer).Elem(), fa.Field)
+	for _, gd := range x.w.cs.Guards {
+		if gd.Kind == kind {
+			for _, f := range gd.Fields {
+				if f == fc {
+					return true
+				}
+			}
+		}
+	}
+	return false
+}
+
+func (x *Exec) assumeChanClosed(st *State, ch Val, cond string) {
+	if _, ok := x.w.classes["ghost:$chclosed"]; !ok || ch.S == "" {
+		return
+	}
+	st.assume("(=> " + cond + " (select " + st.hget("ghost:$chclosed") + " " + ch.S + "))")
+}
+
+// noteRecv records a (conditional) successful receive in Chan.$chrecvs / Chan.$chrecvlast, if declared.
+func (x *Exec) noteRecv(st *State, ch, v Val, cond string) {
+	if ch.S == "" {
+		return
+	}
+	if _, ok := x.w.classes["ghost:$chrecvs"]; ok {
+		h := st.hget("ghost:$chrecvs")
+		st.hset("ghost:$chrecvs", sIte(cond, "(store "+h+" "+ch.S+" (+ (select "+h+" "+ch.S+") 1))", h))
+		if x.writesClasses != nil {
+			x.writesClasses["ghost:$chrecvs"] = true
+		}
+	}
+	if _, ok := x.w.classes["ghost:$chrecvlast"]; ok {
+		if r, ok := refTerm(v); ok {
+			h := st.hget("ghost:$chrecvlast")
+			st.hset("ghost:$chrecvlast", sIte(cond, "(store "+h+" "+ch.S+" "+r+")", h))
+			if x.writesClasses != nil {
+				x.writesClasses["ghost:$chrecvlast"] = true
+			}
+		}
+	}
 }
